@@ -9,7 +9,7 @@ s=open('/tmp/xdiff.out',errors='replace').read()
 parts=s.split('--- replay run=')
 for p in parts[1:]:
     name=p.split(' ',1)[0]
-    keep=[l for l in p.split('\n') if l.startswith(('TYPE','CFG','DOC','HOW','VALUE','ERR','OUT','KIND','TRANSCRIPT'))]
+    keep=[l for l in p.split('\n') if l.startswith(("TYPE","CFG","DOC","HOW","VALUE","ERR","OUT","KIND","TRANSCRIPT","MULTI"))]
     print('==',name)
     for l in keep: print('  ',l[:${W:-600}])
 PY
